@@ -10,6 +10,7 @@ import (
 	"encoding/json"
 	"flag"
 	"fmt"
+	"github.com/bbva/qed/crypto/hashing"
 	"math/rand"
 	"path/filepath"
 	"sync"
@@ -81,7 +82,14 @@ func senderDriver(args []string) error {
 			produce := func(n int) {
 				for i := 0; i < n; i++ {
 					id++
-					snap := &protocol.Snapshot{EventDigest: []byte{byte(id), byte(id >> 8), 1}, HistoryDigest: []byte{2, byte(id)}, HyperDigest: []byte{3, byte(id), byte(run)}, Version: uint64(id)}
+					// digests of the real size (32 bytes), distinct per snapshot
+					dg := func(tag byte) []byte {
+						d := make([]byte, 32)
+						rng.Read(d)
+						d[0], d[1], d[2] = tag, byte(id), byte(id>>8)
+						return d
+					}
+					snap := &protocol.Snapshot{EventDigest: dg(1), HistoryDigest: dg(2), HyperDigest: dg(3), Version: uint64(id)}
 					tw.Emit(trace.Ev{"a": "produce", "id": id})
 					ch <- snap
 				}
@@ -157,6 +165,34 @@ func senderDriver(args []string) error {
 							},
 							func(x *protocol.Snapshot) { x.EventDigest, x.HistoryDigest = x.HistoryDigest, x.EventDigest },
 							func(x *protocol.Snapshot) { x.EventDigest = append(append([]byte{}, x.EventDigest...), 0) },
+						}
+						// one bit at every byte offset of every digest, and truncations
+						for _, off := range []int{1, 7, 8, 9, 15, 16, 24, 30, 31} {
+							off := off
+							for f := 0; f < 3; f++ {
+								f := f
+								mods = append(mods, func(x *protocol.Snapshot) {
+									p := []*hashing.Digest{&x.EventDigest, &x.HistoryDigest, &x.HyperDigest}[f]
+									if off < len(*p) {
+										c := append(hashing.Digest{}, (*p)...)
+										c[off] ^= 1 << uint(rng.Intn(8))
+										*p = c
+									} else {
+										x.Version++
+									}
+								})
+							}
+						}
+						for f := 0; f < 3; f++ {
+							f := f
+							mods = append(mods, func(x *protocol.Snapshot) {
+								p := []*hashing.Digest{&x.EventDigest, &x.HistoryDigest, &x.HyperDigest}[f]
+								if len(*p) > 8 {
+									*p = append(hashing.Digest{}, (*p)[:8+rng.Intn(len(*p)-8)]...)
+								} else {
+									x.Version++
+								}
+							})
 						}
 						for mi, mod := range mods {
 							cp := *ss.Snapshot
